@@ -465,10 +465,14 @@ class Session:
         self.replaced_in = {}  # abs path -> container index k>=1 where it replaced an older incarnation
         self.ever = set()  # paths that existed at some point
         self.attr_set_in = {}
+        self._idx = ({}, {}, {}, set())
         self.pos = 0
 
     def cidx(self):
         return self.target.n_containers() - 1
+
+    def _snap_idx(self):
+        self._idx = (dict(self.created_in), dict(self.attr_set_in), dict(self.replaced_in), set(self.ever))
 
     def verify(self, where):
         try:
@@ -493,12 +497,14 @@ class Session:
         if kind == "commit":
             target.commit(**(op[1] if len(op) > 1 and isinstance(op[1], dict) else {}))
             self.committed_tree = self.tree.clone()
+            self._snap_idx()
             out.classes.add("boundary")
         elif kind == "reopen":
             mode, commit = op[1], (op[2] if len(op) > 2 else True)
             target.reopen(mode, commit)
             if commit:
                 self.committed_tree = self.tree.clone()
+                self._snap_idx()
             out.classes.add("reopen" if commit else "reopen_uncommitted")
         elif kind == "discard":
             if not target.can_discard():
@@ -506,7 +512,8 @@ class Session:
             target.discard()
             self.tree = self.committed_tree.clone()
             out.classes.add("discard")
-            self.created_in = {p: c for p, c in self.created_in.items() if self.tree.lookup(p) is not None}
+            self.created_in, self.attr_set_in, self.replaced_in, self.ever = (
+                dict(self._idx[0]), dict(self._idx[1]), dict(self._idx[2]), set(self._idx[3]))
         if self.on_boundary:
             self.on_boundary(self, kind)
         self.verify(f"after {kind} at {self.pos}")
@@ -625,12 +632,20 @@ def _classify(out, b, before, tree, k, created_in, replaced_in, ever, attr_set_i
         if c < k:
             out.classes.add("delete_node_from_earlier_container")
         replaced_in.pop(p, None)
+        for key in [x for x in attr_set_in if x[0] == p]:
+            del attr_set_in[key]
     for p in new_paths:
         if p in ever and k >= 1:
             replaced_in[p] = k
             out.classes.add("recreate_in_patch")
         created_in[p] = k
         ever.add(p)
+        for key in [x for x in attr_set_in if x[0] == p]:
+            del attr_set_in[key]
+        nn = tree.lookup(p)
+        if nn is not None:
+            for a in nn.attrs:  # attributes that arrived with a copy / move
+                attr_set_in[(p, a)] = k
     for p in _touch_paths(b):
         rk = replaced_in.get(p)
         if rk is not None and k > rk:
@@ -639,7 +654,7 @@ def _classify(out, b, before, tree, k, created_in, replaced_in, ever, attr_set_i
     if o == "setattr":
         attr_set_in[(b["abs"], b["key"])] = k
     if o == "delattr":
-        if attr_set_in.get((b["abs"], b["key"]), 0) < k:
+        if attr_set_in.pop((b["abs"], b["key"]), 0) < k:
             out.classes.add("attr_delete_across_containers")
     if k >= 2 and (o == "del" or new_paths and any(p in ever for p in new_paths)):
         out.classes.add("delete_or_replace_in_nonfirst_of_ge3")
